@@ -79,38 +79,71 @@ Proof.
   eexists. split; vm_compute; reflexivity.
 Qed.
 
-(** F-C07c: a list-kind flag left without a value is accepted. *)
-Lemma refuted_list :
-  exists cs init argv r,
-    c07_guard cs init = true /\
-    parser_parse cs init false argv = Ok r /\
-    spec_ok cs init false argv (Ok (obs_of_presult r)) = false.
+(** Since repair 9120dc5 (F-C07c, F-C07d fixed): a value-requiring flag left
+    without a value is a ParseError also when its argument already holds
+    something -- a list-kind argument (raw_value starts as []), an argument
+    given earlier by flag, an argument filled positionally.  An optional-value
+    flag repeated bare still keeps its earlier value (the unchanged second
+    branch of [complete_flag]). *)
+Lemma missing_value_list_raises :
+  c07_guard small_cs (Some core_ctx) = true /\
+  parser_parse small_cs (Some core_ctx) false ["t"; "--lst"] = Err EParse /\
+  parser_parse small_cs (Some core_ctx) false ["t"; "--lst"; "a"; "--lst"] = Err EParse /\
+  spec_ok small_cs (Some core_ctx) false ["t"; "--lst"] (model_parse small_cs ICore false ["t"; "--lst"]) = true.
+Proof. repeat split; vm_compute; reflexivity. Qed.
+
+Lemma missing_value_repeat_raises :
+  parser_parse small_cs (Some core_ctx) false ["t"; "--name"; "x"; "--name"] = Err EParse /\
+  parser_parse small_cs (Some core_ctx) false ["p"; "v"; "--pos"] = Err EParse /\
+  spec_ok small_cs (Some core_ctx) false ["t"; "--name"; "x"; "--name"]
+          (model_parse small_cs ICore false ["t"; "--name"; "x"; "--name"]) = true /\
+  exists r, parser_parse small_cs (Some core_ctx) false ["t"; "--opt"; "o"; "--opt"] = Ok r /\
+            map obs_of_ctx (tl (pr_ctxs r))
+            = [(Some "t", [("name", ANone); ("num", AInt 1); ("flag", ABool false);
+                           ("lst", AList []); ("opt", AStr "o")])].
 Proof.
-  exists small_cs, (Some core_ctx), ["t"; "--lst"]. eexists.
-  split; [vm_compute; reflexivity|]. split; vm_compute; reflexivity.
+  split; [vm_compute; reflexivity|]. split; [vm_compute; reflexivity|].
+  split; [vm_compute; reflexivity|]. eexists. split; vm_compute; reflexivity.
 Qed.
 
-(** F-C07d: a value flag whose argument already has a value (given earlier by
-    flag, or positionally) and is now left without one is accepted. *)
-Lemma refuted_repeat :
-  exists cs init argv r,
-    c07_guard cs init = true /\
-    parser_parse cs init false argv = Ok r /\
-    spec_ok cs init false argv (Ok (obs_of_presult r)) = false.
-Proof.
-  exists small_cs, (Some core_ctx), ["t"; "--name"; "x"; "--name"]. eexists.
-  split; [vm_compute; reflexivity|]. split; vm_compute; reflexivity.
-Qed.
+(** Historical record (F-C07c / F-C07d, fixed): [complete_flag_old] is the rule
+    as it was before 9120dc5 -- "needed a value" judged by [raw_value is None].
+    On the machines reached after "t --lst" and after "t --name x --name" (the
+    dangling flag is current, [flag_got_value] is False) the old rule saw a
+    raw_value ([] resp. "x") and let the parse finish; the repaired rule raises. *)
+Definition complete_flag_old (m : machine) : result machine :=
+  match m_flag m, flag_arg m with
+  | Some f, Some r =>
+      if takes_value (r_spec r) && negb (r_raw r) && negb (a_optional (r_spec r))
+      then Err EParse
+      else if negb (r_raw r) && a_optional (r_spec r)
+      then set_arg_value m f (IBool true) false
+      else Ok m
+  | _, _ => Ok m
+  end.
 
-Lemma refuted_repeat_positional :
-  exists r, parser_parse small_cs (Some core_ctx) false ["p"; "v"; "--pos"] = Ok r /\
-            spec_ok small_cs (Some core_ctx) false ["p"; "v"; "--pos"] (Ok (obs_of_presult r)) = false.
-Proof. eexists. split; vm_compute; reflexivity. Qed.
+Definition machine_after (argv : list string) : option (result machine) :=
+  match new_machine (mkP small_cs (Some core_ctx) false) with
+  | Ok m0 => loop (mkP small_cs (Some core_ctx) false) 10 m0 argv
+  | Err e => Some (Err e)
+  end.
+
+Lemma missing_value_historical_refuted :
+  (exists m, machine_after ["t"; "--lst"] = Some (Ok m) /\ m_got m = false /\
+             complete_flag_old m = Ok m /\ complete_flag m = Err EParse) /\
+  (exists m, machine_after ["t"; "--name"; "x"; "--name"] = Some (Ok m) /\ m_got m = false /\
+             complete_flag_old m = Ok m /\ complete_flag m = Err EParse) /\
+  (exists m, machine_after ["p"; "v"; "--pos"] = Some (Ok m) /\ m_got m = false /\
+             complete_flag_old m = Ok m /\ complete_flag m = Err EParse).
+Proof.
+  split; [|split]; eexists; (split; [vm_compute; reflexivity|]); repeat split; vm_compute; reflexivity.
+Qed.
 
 (** ** Bounded sweep (a test): every command line of at most [n] tokens over a
     14-token alphabet against the two tasks above and the real core context.
-    The model's outcome satisfies the complete [spec_ok] except inside the
-    catalogued findings (dangling value flag accepted). *)
+    The model's outcome satisfies the complete [spec_ok] -- no exemption since
+    repair 9120dc5 (the former one, "dangling value flag accepted", covered
+    F-C07c/d). *)
 Definition sweep_alpha : list string :=
   ["t"; "p"; "--name"; "-n"; "-u5"; "--name=x"; "x"; "-f"; "--"; "-fn"; "--lst"; "--opt";
    "--no-yes"; "-e"].
@@ -123,16 +156,8 @@ Fixpoint seqs (n : nat) (alpha : list string) : list (list string) :=
               ++ seqs n' alpha
   end.
 
-Definition excused (cs : list ctxspec) (init : option ctxspec) (argv : list string)
-           (obs : result pobs) : bool :=
-  match obs with
-  | Ok o => b2_dangling_flag cs init (before_ddash argv) o
-  | _ => false
-  end.
-
 Definition sweep_ok (argv : list string) : bool :=
-  let obs := model_parse small_cs ICore false argv in
-  spec_ok small_cs (Some core_ctx) false argv obs || excused small_cs (Some core_ctx) argv obs.
+  spec_ok small_cs (Some core_ctx) false argv (model_parse small_cs ICore false argv).
 
 Lemma spec_sweep_3 : forallb sweep_ok (seqs 3 sweep_alpha) = true.
 Proof. vm_compute. reflexivity. Qed.
